@@ -214,7 +214,7 @@ class Field:
                 try:
                     parent.add_argument(subfield_name, subfield)
                 except IndexError:
-                    raise ArgumentNumberingMixture(subfield)
+                    raise ArgumentNumberingMixture(s)
                 except OverflowError:
                     raise ArgumentRangeError(s)
         else:
